@@ -95,13 +95,50 @@ Section Token.
     all: intros Hp Hd; try discriminate Hd.
     all: try (specialize (Ht Hp)).
     all: try (specialize (Ht eq_refl)).
-    all: rewrite ?orb_true_r; try done.
-    all: try (rewrite (fresh_live _ _ _ P6) by lia; rewrite ?orb_true_r; done).
-    all: try (destruct jobq; cbn; rewrite ?orb_true_r; done).
+    all: try (specialize (Ht Hd)).
+    all: rewrite ?orb_true_r; try reflexivity.
+    all: try match goal with E : _ = Some (?k, _), P6 : Forall _ ?wt |- _ =>
+           let Hl := fresh "Hlive" in
+           assert (live_in wt k = true) as Hl by (apply (fresh_live _ _ _ P6); lia);
+           rewrite Hl, ?orb_true_r; reflexivity end.
+    all: try (destruct jobq; cbn; rewrite ?orb_true_r; reflexivity).
+    all: clear H0 H1 H2 P1 P2 P3 P4 P5 P6.
     all: subst; cbn in *.
     all: repeat match goal with |- context [wk_of ?o] => destruct o; cbn in * end.
-    all: repeat (apply orb_prop in Ht as [Ht|Ht]); try discriminate Ht.
-    all: try (rewrite Ht, ?orb_true_r; done).
-    Show.
-  Admitted.
+    all: repeat match type of Ht with (_ || _) = true => apply orb_prop in Ht as [Ht|Ht] end; try discriminate Ht.
+    all: try (rewrite Ht, ?orb_true_r; reflexivity).
+    all: try congruence.
+    all: bool_hyps; subst; cbn in *; congruence.
+  Qed.
+
+  Lemma reach_inv_token inputs ext tr s : run F f (init F inputs ext) tr = Some s -> inv_token s.
+  Proof.
+    intros Hr.
+    assert (H : inv_fresh s /\ inv_shape s /\ inv_token s); [|tauto].
+    revert tr s Hr. apply run_invariant_all.
+    - split_and!; [apply inv_fresh_init|apply inv_shape_init|apply inv_token_init].
+    - intros s a s' (H1 & H2 & H3) Hs. split_and!.
+      + eapply step_inv_fresh; eauto.
+      + eapply step_inv_shape; eauto.
+      + eapply step_inv_token; eauto.
+  Qed.
+
+  (* C12.3 (a): the producer can always be woken *)
+  Theorem backpressure_release inputs ext tr s :
+    run F f (init F inputs ext) tr = Some s ->
+    s.(jobq) = [] -> s.(running) = None -> dropped s = false -> s.(poll_fn) = true ->
+    live_opt s s.(inp_waker) = true \/ live_opt s s.(bp) = true \/ wk_tok s s.(cwk) = true \/ wk_tok s s.(ewk) = true.
+  Proof.
+    intros Hr Hq Hrun Hd Hp. pose proof (reach_inv_token _ _ _ _ Hr Hp Hd) as Ht.
+    unfold tokens, rtok in Ht. rewrite Hq, Hrun in Ht. cbn in Ht.
+    repeat match type of Ht with (_ || _) = true => apply orb_prop in Ht as [Ht|Ht] end; auto.
+  Qed.
+
+  (* C12.3 (b): every consumer poll that does not end the stream takes backpressure_release_notify, in the same
+     critical section in which it pops / registers; the taken waker goes into the consumer's wake slot *)
+  Theorem consumer_poll_takes_backpressure s s' :
+    step F f s ACPoll = Some s' -> s'.(cst) <> CDone -> s'.(bp) = None /\ s'.(cwk) = wk_of s.(bp).
+  Proof.
+    intros Hs. step_cases Hs; cbn; try done. intros Hn; by destruct Hn.
+  Qed.
 End Token.
